@@ -278,10 +278,17 @@ class C05(Check):
                     orig_iter = par.iter_unordered
                     order_log = []
 
+                    slept = [0]
+
                     def delayed(self_, arg):
-                        key = repr(getattr(arg, "cache_path", None) or (getattr(arg, "id1", None), getattr(arg, "id2", None)) or arg)
-                        t = int(hashlib.sha1((key + str(case["seed"])).encode()).hexdigest()[:4], 16) % 12
-                        time.sleep(t * 0.0015)
+                        # seeded delays permute the completion order; only the first couple of hundred tasks of a
+                        # process are delayed: a map of thousands of tiny tasks would otherwise spend its time asleep
+                        # (slow, and indistinguishable from a blocked pool for the watchdog)
+                        slept[0] += 1
+                        if slept[0] <= 200:
+                            key = repr(getattr(arg, "cache_path", None) or (getattr(arg, "id1", None), getattr(arg, "id2", None)) or arg)
+                            t = int(hashlib.sha1((key + str(case["seed"])).encode()).hexdigest()[:4], 16) % 12
+                            time.sleep(t * 0.0015)
                         return orig_call(self_, arg)
 
                     def observing(func, iterable, **kw):
@@ -322,7 +329,7 @@ class C05(Check):
 
                 r = run_forked(child, workdir=tmp, wall_cap=240)
                 if r["outcome"] == "quiescent":
-                    bad("realpool:hang", dict(stack=r.get("stack", "")[-500:]))
+                    bad("realpool:hang", dict(stack=r.get("stack", "")[-16000:], processes=r.get("processes")))
                     return out
                 if r["outcome"] == "raised":
                     bad(f"realpool-run:raises-{r['type']}", dict(error=r["message"]))
